@@ -662,6 +662,9 @@ Expr={expr}"""
                     pass
         from dask_expr.io._delayed import _DelayedExpr
 
+        if isinstance(values, dict):
+            # Keyed by column: column projections have to see the keys
+            return new_collection(expr.Isin(self, values=values))
         return new_collection(
             expr.Isin(
                 self,
